@@ -149,6 +149,11 @@ let () =
         let impl = String.concat " " res in
         incr nops;
         (match opf with
+         | ["seekl"; lo] ->
+             let m = (match seek_first (dec_bytes lo) !l2 with Some k -> "L" ^ enc_bytes k | None -> "end") in
+             incr l2checks; bump "op:seekl";
+             if m <> impl then begin incr mism; bad := true;
+               emit (Printf.sprintf "MISMATCH\t%s\t%d\tseekl %s\timpl=%s\tl2=%s" !seq !idx lo impl m) end
          | ["bopen"; rv; lo; hi] ->
              (* BatchedUse.v: a batched snapshot iterator kept across operations *)
              let m = if !s1.stages1 = [] then "nostage"
